@@ -51,6 +51,8 @@ if sys.argv[1] == 'build':
                 if os.path.exists(pf) and not os.path.exists(os.path.join(VF, '%s-%s.json' % (a, n))):
                     tasks.append(('%s-%s' % (a, n), pf))
     for f in sorted(os.listdir(root)):
+        if os.path.exists(os.path.join(root, f, 'patch.diff')) and not os.path.exists(os.path.join(VF, f + '.json')):
+            tasks.append((f, os.path.join(root, f, 'patch.diff')))
         if f.endswith('.patch'):
             tasks.append((f[:-6], os.path.join(root, f)))
     with ProcessPoolExecutor(16) as ex:
